@@ -24,11 +24,19 @@ cT == <<116>>  cX == <<120>>  cY == <<121>>  cZ == <<122>>
 cUA == <<65>>  cUB == <<66>>
 cIn == <<105,110>>  cList == <<108,105,115,116>>  cMaybe == <<109,97,121,98,101>>  cItem == <<105,116,101,109>>
 cAlpha == <<97,108,112,104,97>>  cBeta == <<98,101,116,97>>  cEx == <<101,120>>  cWhy == <<119,104,121>>
+cId == <<105,100>>  cN == <<110>>  cV == <<118>>  cW == <<119>>
+cUId == <<73,100>>  cUTag == <<84,97,103>>  cUCount == <<67,111,117,110,116>>  cUSizes == <<83,105,122,101,115>>
+cUPrice == <<80,114,105,99,101>>  cUBig == <<66,105,103>>
 cRed == <<114,101,100>>  cGreen == <<103,114,101,101,110>>  cBlue == <<98,108,117,101>>
 
 I32 == TInt("i32")
 U8 == TInt("u8")
+I8 == TInt("i8")  I16 == TInt("i16")  U16 == TInt("u16")  U32 == TInt("u32")  I64 == TInt("i64")  U64 == TInt("u64")
+F32 == TFlt("f32")  F64 == TFlt("f64")
 None == <<"none">>
+NoSeq == <<"seq", <<>>>>
+IV(n) == <<"i", n>>
+FZ == <<"f", 0, 0>>
 (* ---- the classes (harness/c17_types.hpp declares the same members, mandatory counts and defaults) ---- *)
 Color == TEnum(<<cRed, cGreen, cBlue>>)                       \* JSONCONS_ENUM_TRAITS(Color, red, green, blue)
 Suit == TEnum(<<<<72>>, <<83>>>>)                             \* JSONCONS_ENUM_NAME_TRAITS(Suit, (hearts,"H"), (spades,"S"))
@@ -47,6 +55,32 @@ Outer == TStruct("member", <<Mem(cIn, SA, TRUE, <<"rec", <<<<"i", 0>>, <<"b", FA
 D1 == TStruct("member", <<Mem(cP, I32, TRUE, <<"i", 0>>), Mem(cQ, I32, TRUE, <<"i", 0>>), Mem(cT, I32, FALSE, <<"i", 3>>)>>)   \* N_MEMBER(D1, 2, p, q, t)
 D2 == TStruct("member", <<Mem(cR, TBool, TRUE, <<"b", FALSE>>)>>)                                                   \* ALL_MEMBER(D2, r)
 Base == TPoly(<<D1, D2>>)                                                                                  \* POLYMORPHIC(Base, D1, D2)
+(* ---- classes with 16 / 64 bit and floating point members; one class with mandatory AND optional members (an integer with a
+        default, a container, an optional<double>, none of them last only) per macro flavour that has an N_ form ---- *)
+NUM == TStruct("member", <<Mem(cA, I64, TRUE, IV(0)), Mem(cB, U64, TRUE, IV(0)), Mem(cC, I16, TRUE, IV(0)), Mem(cD, U16, TRUE, IV(0)),   \* ALL_MEMBER(NUM, a, b, c, d, e, f)
+                 Mem(cE, F32, TRUE, FZ), Mem(<<102>>, F64, TRUE, FZ)>>)
+CGU == TStruct("ctor", <<Mem(cA, U64, TRUE, IV(0)), Mem(cB, I64, TRUE, IV(0)), Mem(cC, F64, TRUE, FZ)>>)                               \* ALL_CTOR_GETTER(CGU, a, b, c)
+GSA == TStruct("getset", <<Mem(cUA, U64, TRUE, IV(0)), Mem(cUB, F64, TRUE, FZ)>>)                                                     \* ALL_GETTER_SETTER(GSA, get, set, A, B)
+SAN == TStruct("member", <<Mem(cAlpha, I64, TRUE, IV(0)), Mem(cBeta, F32, TRUE, FZ)>>)                                                \* ALL_MEMBER_NAME(SAN, (a,"alpha"), (b,"beta"))
+MX == TStruct("member", <<Mem(cA, U16, TRUE, IV(0)), Mem(cB, F64, TRUE, FZ),                                                          \* N_MEMBER(MX, 2, a, b, c, d, e)
+                Mem(cC, U64, FALSE, IV(9)), Mem(cD, TVec(U16), FALSE, NoSeq), Mem(cE, TOpt(F64), FALSE, None)>>)
+CX == TStruct("ctor", <<Mem(cA, U64, TRUE, IV(0)), Mem(cB, TBool, TRUE, <<"b", FALSE>>),                                              \* N_CTOR_GETTER(CX, 2, a, b, c, d, e)
+                Mem(cC, I16, FALSE, IV(0)), Mem(cD, TVec(U16), FALSE, NoSeq), Mem(cE, TOpt(F64), FALSE, None)>>)
+GSX == TStruct("getset", <<Mem(cUId, I64, TRUE, IV(0)), Mem(cUTag, U16, TRUE, IV(0)),                                                 \* N_GETTER_SETTER(GSX, get, set, 2, Id, Tag, Count, Sizes, Price, Big)
+                 Mem(cUCount, I32, FALSE, IV(7)), Mem(cUSizes, TVec(U16), FALSE, NoSeq), Mem(cUPrice, TOpt(F64), FALSE, None), Mem(cUBig, U64, FALSE, IV(9))>>)
+SNX == TStruct("member", <<Mem(cId, U64, TRUE, IV(0)), Mem(cW, F64, TRUE, FZ),                                                        \* N_MEMBER_NAME(SNX, 2, (id,"id"), (w,"w"), (n,"n"), (v,"v"), (p,"p"))
+                 Mem(cN, I16, FALSE, IV(7)), Mem(cV, TVec(U16), FALSE, NoSeq), Mem(cP, TOpt(F64), FALSE, None)>>)
+CGX == TStruct("ctor", <<Mem(cA, I16, TRUE, IV(0)), Mem(cB, F32, TRUE, FZ),                                                           \* N_CTOR_GETTER_NAME(CGX, 2, (a,"a"), (b,"b"), (c,"c"), (d,"d"), (e,"e"))
+                 Mem(cC, I32, FALSE, IV(0)), Mem(cD, TVec(U16), FALSE, NoSeq), Mem(cE, TOpt(F64), FALSE, None)>>)
+GSNX == TStruct("getsetn", <<Mem(cA, I64, TRUE, IV(0)), Mem(cB, TStr, TRUE, <<"s", <<>>>>),                                            \* N_GETTER_SETTER_NAME(GSNX, 2, (getA,setA,"a"), .. (getE,setE,"e"))
+                  Mem(cC, I32, FALSE, IV(7)), Mem(cD, TVec(U16), FALSE, NoSeq), Mem(cE, TOpt(F64), FALSE, None)>>)
+\* class templates (TPL_N_ forms), instantiated with one argument each
+TplMs(T, dfltA, dfltC) == <<Mem(cA, T, TRUE, dfltA), Mem(cB, U16, TRUE, IV(0)), Mem(cC, I16, FALSE, dfltC), Mem(cD, TOpt(F64), FALSE, None)>>
+TM == TStruct("member", TplMs(U64, IV(0), IV(7)))                     \* TPL_N_MEMBER(1, TM, 2, a, b, c, d)                          TM<uint64_t>
+TMN == TStruct("member", TplMs(I64, IV(0), IV(7)))                    \* TPL_N_MEMBER_NAME(1, TMN, 2, (a,"a"), ..)                   TMN<int64_t>
+TCN == TStruct("ctor", TplMs(F64, FZ, IV(0)))                       \* TPL_N_CTOR_GETTER_NAME(1, TCN, 2, (a,"a"), ..)              TCN<double>
+TGS == TStruct("getset", <<Mem(cUA, U64, TRUE, IV(0)), Mem(cUB, U16, TRUE, IV(0)), Mem(<<67>>, I16, FALSE, IV(7)), Mem(<<68>>, TOpt(F64), FALSE, None)>>)   \* TPL_N_GETTER_SETTER(1, TGS, get, set, 2, A, B, C, D)  TGS<uint64_t>
+TGN == TStruct("getsetn", TplMs(I16, IV(0), IV(7)))                    \* TPL_N_GETTER_SETTER_NAME(1, TGN, 2, (getA,setA,"a"), ..)    TGN<int16_t>
 
 Family == [
   I32 |-> I32, U8 |-> U8, BOOL |-> TBool, STR |-> TStr,
@@ -58,7 +92,15 @@ Family == [
   COL |-> Color, SUIT |-> Suit,
   SA |-> SA, SN |-> SN, CG |-> CG, GS |-> GS, SNM |-> SNM, CGN |-> CGN, GSN |-> GSN, BOXI |-> BoxI, OUTER |-> Outer,
   PB |-> Base, VSPB |-> TVec(Base),
-  BS8 |-> TBits(8), BS12 |-> TBits(12), SEC |-> TSecs ]
+  BS8 |-> TBits(8), BS12 |-> TBits(12), SEC |-> TSecs,
+  \* 8 / 16 / 32 / 64 bit integers and floating point: top level, in containers that are not read / written as typed arrays
+  \* (map values, pair, tuple, optional, vector of optional / pair, std::array, shared_ptr, variant) and in those that are (vector)
+  I8 |-> I8, I16 |-> I16, U16 |-> U16, U32 |-> U32, I64 |-> I64, U64 |-> U64, F32 |-> F32, F64 |-> F64,
+  VI64 |-> TVec(I64), VU64 |-> TVec(U64), VF64 |-> TVec(F64), MSU64 |-> TMap(U64), UMSI64 |-> TMap(I64),
+  PUI |-> TPair(U64, I64), TNUM |-> TTup(<<U64, I16, F64>>), OU64 |-> TOpt(U64), VOU64 |-> TVec(TOpt(U64)), VPSU |-> TVec(TPair(TStr, U64)),
+  AU2 |-> TArr(U64, 2), SPU64 |-> TPtr(U64), XUS |-> TVar(<<U64, TStr>>), XIF |-> TVar(<<I64, F64>>),
+  NUM |-> NUM, CGU |-> CGU, GSA |-> GSA, SAN |-> SAN, MX |-> MX, CX |-> CX, GSX |-> GSX, SNX |-> SNX, CGX |-> CGX, GSNX |-> GSNX,
+  TM |-> TM, TMN |-> TMN, TCN |-> TCN, TGS |-> TGS, TGN |-> TGN ]
 TypeNames == IF Types = {} THEN DOMAIN Family ELSE Types
 
 (* ---- universes ---- *)
@@ -66,16 +108,24 @@ Bits8 == { <<0,0,0,0,0,0,0,0>>, <<1,1,1,1,1,1,1,1>>, <<0,1,0,1,0,1,0,0>>, <<1,0,
 Bits12 == { <<0,0,0,0,0,0,0,0,0,0,0,0>>, <<1,1,1,1,1,1,1,1,1,1,1,1>>, <<1,0,0,0,0,0,0,0,0,0,0,1>>, <<0,0,0,0,0,0,0,1,1,0,0,0>> }
 UV == [ ints |-> IF Big THEN {-129, 0, 1, 255, 65536} ELSE {-1, 0, 1, 200}, bools |-> BOOLEAN,
         strs |-> IF Big THEN {<<>>, cA, <<233, 98>>, <<34, 92>>, <<1>>, <<65536>>} ELSE {<<>>, cA, <<233, 98>>},
-        maxlen |-> 2, keys |-> {cA, cB}, ikeys |-> {-1, 0, 10}, bits |-> Bits8 \cup Bits12 ]
-US == [ ints |-> {1}, bools |-> {FALSE}, strs |-> {cA}, maxlen |-> IF Big THEN 2 ELSE 1, keys |-> {cA}, ikeys |-> {10}, bits |-> {<<0,1,0,1,0,1,0,0>>, <<1,0,0,0,0,0,0,0,0,0,0,1>>} ]
+        maxlen |-> 2, keys |-> {cA, cB}, ikeys |-> {-1, 0, 10}, bits |-> Bits8 \cup Bits12,
+        edge |-> "all", flts |-> {<<5, -1>>, <<-225, -2>>, <<1, -1>>} \cup (IF Big THEN {<<0, 0>>, <<3, 0>>, <<1, 10>>} ELSE {}) ]      \* 0.5, -2.25, 0.1 (double only), 0.0, 3.0, 1e10
+US == [ ints |-> {1}, bools |-> {FALSE}, strs |-> {cA}, maxlen |-> IF Big THEN 2 ELSE 1, keys |-> {cA}, ikeys |-> {10}, bits |-> {<<0,1,0,1,0,1,0,0>>, <<1,0,0,0,0,0,0,0,0,0,0,1>>},
+        edge |-> "one", flts |-> {<<5, -1>>} ]
 
 O1(k, v) == JObj([q \in {k} |-> v])
 Nest == O1(cA, JArr(<<JInt(1), O1(cB, JInt(2))>>))
 Pool == { JNull, JBool(TRUE), JInt(1), JStr(<<>>), JStr(<<115>>), JStr(<<49>>), EmptyArr, JArr(<<JInt(1)>>), EmptyObj, O1(cA, JInt(1)) }
-        \cup (IF Big THEN { JInt(300), JInt(-1), JStr(cRed), JArr(<<JStr(<<115>>)>>), Nest } ELSE {})
+        \cup (IF Big THEN { JInt(300), JInt(-1), JStr(cRed), JArr(<<JStr(<<115>>)>>), Nest, JDec(5, -1), KMax("u64") } ELSE {})
 ExtraElems == { JInt(1), JNull }
 ExtraKeys == { <<33>>, cZ } \cup (IF Big THEN { <<98, 98>> } ELSE {})
 ExtraVals == { JInt(1), JNull, Nest, JArr(<<JInt(1)>>) } \cup (IF Big THEN { JStr(cA), O1(cB, JBool(TRUE)) } ELSE {})
+
+\* faults of a number: the range side - the extreme values of the integer kind (readable) and the nearest integers outside its
+\* range (256 / -1 for uint8_t, 2^63 for int64_t, 2^64 / -1 for uint64_t ...), a fraction; for float / double another fraction and integers
+NumFaults(T) == IF T[1] = "int" THEN {KBelow(T[2]), KAbove(T[2]), JDec(5, -1)} \cup (IF T[2] \in {"i32", "u8"} /\ ~Big THEN {} ELSE {KMin(T[2]), KMax(T[2])})
+                ELSE {JDec(-225, -2), JDec(1, -1), KMax("u64")}
+ASSUME \A k \in IntKinds : InRange(k, KMin(k)) /\ InRange(k, KMax(k)) /\ ~InRange(k, KBelow(k)) /\ ~InRange(k, KAbove(k))
 
 ObjOf(ks, vs) == JObj([k \in {ks[i] : i \in 1..Len(ks)} |-> vs[CHOOSE i \in 1..Len(ks) : ks[i] = k]])
 
@@ -113,9 +163,14 @@ Mut(T, v, b) ==
               \cup { ObjOf(RemoveAt0(ks, d - 1), RemoveAt0(s, d - 1)) : s \in S1, d \in 1..Len(ks) }              \* a member missing
               \cup { ObjOf(Append(ks, k), Append(s, e)) : s \in S1, k \in ExtraKeys, e \in ExtraVals }             \* an undeclared member
               \cup { ObjOf(Append(ks, ms[i].n), Append(s, e)) : s \in S1, i \in nw, e \in Pool }                   \* an omitted optional member supplied
+      [] T[1] \in {"int", "flt"} -> NumFaults(T) \cup {ToJ(T, v)}
       [] OTHER -> {ToJ(T, v)}
 
 (* ---- known deviations of the pinned implementation (trigger predicates; see notes/C17.md) ---- *)
+\* a variant with a uint64_t alternative reading an integer above INT64_MAX
+VarBigU(T, j) == T[1] = "var" /\ (\E k \in 1..Len(T[2]) : T[2][k] = U64) /\ j[1] = "wide" /\ InRange("u64", j) /\ ~InRange("i64", j)
+\* a class declared with N_GETTER_SETTER_NAME holding an empty optional in a non-mandatory member
+NullOpt(T, v) == T[1] = "struct" /\ T[3] = "getsetn" /\ \E i \in 1..Len(T[2]) : ~Written(T[2][i], v[2][i])
 RECURSIVE Devs(_, _)
 Devs(T, j) ==
   CASE T[1] \in {"vec", "arr"} ->
@@ -128,6 +183,7 @@ Devs(T, j) ==
          ELSE UNION { Devs(T[2][i], j[2][i]) : i \in 1..Len(T[2]) }
     [] T[1] = "pair" -> IF IsArr(j) /\ Len(j[2]) >= 2 THEN UNION { Devs(T[2][i], j[2][i]) : i \in 1..2 } ELSE {}
     [] T[1] \in {"var", "poly"} -> UNION { Devs(T[2][k], j) : k \in 1..Len(T[2]) }
+                                   \cup (IF VarBigU(T, j) THEN {"ubjson-variant-uint64"} ELSE {})
     [] T[1] = "enum" -> IF j = JStr(<<>>) THEN {"enum-empty-string"} ELSE {}
     [] T[1] = "struct" ->
          IF ~IsObj(j) THEN {}
@@ -155,11 +211,13 @@ Next == \/ /\ ph = 0 /\ ph' = 1 /\ doc' = JNull
 
 CurT == Family[ty]
 ValCase == [k |-> "val", ty |-> ty, v |-> VWire(val), img |-> Wire(ToJ(CurT, val)),
-            ij |-> Mentions(CurT, {"bits", "secs"}), bson |-> IsObj(ToJ(CurT, val)) /\ RootObj(CurT),
-            dev |-> IF Mentions(CurT, {"bits"}) THEN {"ubjson-bitset"} ELSE {}]
+            ij |-> Mentions(CurT, {"bits", "secs"}), bson |-> IsObj(ToJ(CurT, val)) /\ RootObj(CurT) /\ AllInt64(ToJ(CurT, val)),
+            dev |-> (IF Mentions(CurT, {"bits"}) THEN {"ubjson-bitset"} ELSE {})
+                    \cup (IF VarBigU(CurT, ToJ(CurT, val)) THEN {"ubjson-variant-uint64"} ELSE {})
+                    \cup (IF NullOpt(CurT, val) THEN {"getset-name-null-optional"} ELSE {})]
 InpCase == LET r == FromJ(CurT, doc) IN
            [k |-> "inp", ty |-> ty, d |-> Wire(doc), r |-> r[1], v |-> IF r[1] = "ok" THEN VWire(r[2]) ELSE <<"none">>,
-            bson |-> IsObj(doc) /\ RootObj(CurT), dev |-> Devs(CurT, doc)]
+            bson |-> IsObj(doc) /\ RootObj(CurT) /\ AllInt64(doc), dev |-> Devs(CurT, doc)]
 Emit == CASE ph = 1 -> PrintT(ToJson(ValCase)) [] ph = 2 -> PrintT(ToJson(InpCase)) [] OTHER -> TRUE
 
 (* ---- model-internal obligations ---- *)
